@@ -73,9 +73,9 @@ func init() {
 		"completeness of each validator against the p2p spec's full condition list beyond the tabled outcomes; exact clock-window arithmetic.",
 		"gossip.mark", "gossip.verdict", "cmp.spec@gossipval.", "loop.exists", "bls.verify", "err.flow@gossipval.|phase0.|altair.|common.", "args.order@gossipval.")
 	prop("C13",
-		"(genesis.init) GenesisFromEth1 performs the spec's initialisation steps with the spec's arguments on every success path, updates the deposit-tree root before each deposit, rounds/caps effective balances and activates at MAX_EFFECTIVE_BALANCE, takes the validators root after activation, loads the context, and only the kick-start helpers skip signatures/proofs; IsValidGenesisState compares with the two spec constants; (cache.deposit)(merkle.bound)(bls.verify)(err.flow) the shared ProcessDeposit obligations incl. the three spec-mandated forgiven errors; (epc.coverage) the genesis context is complete; (config.values) genesis constants are the spec's.",
+		"(genesis.init) GenesisFromEth1 performs the spec's initialisation steps with the spec's arguments on every success path, updates the deposit-tree root before each deposit, rounds/caps effective balances and activates at MAX_EFFECTIVE_BALANCE, takes the validators root after activation, loads the context, and only the kick-start helpers skip signatures/proofs (helpers and local closures are read in place, arguments in resolved normal form); (cmp.spec/formula.spec) IsValidGenesisState compares with the two spec constants, the genesis formulas are the reviewed ones; (cache.deposit)(merkle.bound)(bls.verify)(err.flow) the shared ProcessDeposit obligations incl. the three spec-mandated forgiven errors; (epc.coverage) the genesis context is complete; (config.values) genesis constants are the spec's.",
 		"field-for-field equality with the spec's genesis state for all deposit lists.",
-		"genesis.init", "cache.deposit", "merkle.bound", "bls.verify@phase0.ProcessDeposit", "err.flow@phase0.", "epc.coverage", "config.values")
+		"genesis.init", "cmp.spec@phase0.IsValidGenesisState|phase0.GenesisFromEth1", "formula.spec@phase0.GenesisFromEth1", "cache.deposit", "merkle.bound", "bls.verify@phase0.ProcessDeposit", "err.flow@phase0.", "epc.coverage", "config.values")
 	prop("C18",
 		"(ctx.poll) each of the context polls is tested and its error returned on that branch; (err.flow) every frame between a poll / engine call and ProcessSlots/StateTransition propagates the error; (engine.verdict) each engine answer (error, invalid) becomes an error before the payload header is stored, in the spec's call order, and the engine is shown the block's payload, the versioned hashes of its commitments in order and the latest header's parent root; (slots.order) the slot loop returns each stage's error.",
 		"'identical to an undisturbed run when nothing fails' beyond the structural fact that polls have no side effects (ctx is used only for Err() and forwarding - advisory list in evidence).",
